@@ -1394,6 +1394,18 @@ def regenerate(repo_src, gen_dir, quiet=False):
             text = "(* GENERATED: the measure translator failed: %s *)\n" % _coq_comment(repr(ex))
             changed = _write_if_changed(os.path.join(gen_dir, name), text)
             report["gen_files"]["Gen/" + name] = {"sha256": _sha(text), "rewritten": changed}
+    # the subtotal strategies (matrix/subtotals.py, stripe/insertion.py):
+    # harness/translate/subtotals.py -> Gen/SubtotalsSrc.v, StripeInsertionSrc.v
+    try:
+        from harness.translate import subtotals
+
+        subtotals.regenerate(repo_src, gen_dir, report)
+    except Exception as ex:  # a bug of ours: fail closed (files without definitions)
+        report["errors"].append("subtotals: %r" % (ex,))
+        for name in ("SubtotalsSrc.v", "StripeInsertionSrc.v"):
+            text = "(* GENERATED: the subtotal-strategy translator failed: %s *)\n" % _coq_comment(repr(ex))
+            changed = _write_if_changed(os.path.join(gen_dir, name), text)
+            report["gen_files"]["Gen/" + name] = {"sha256": _sha(text), "rewritten": changed}
     report["n_translated"] = len(report["methods_translated"])
     report["n_unavailable"] = len(report["unavailable"])
     if not quiet:
